@@ -4,9 +4,11 @@ Three streams of statements -- valid, single-fault mutants (one per rule of the 
 texts / arbitrary strings -- are run through the real parser + compiler (+ executor) and through the Coq
 model Model/Compile.v (`compile_out`, evaluated by vm_compute on the Gallina translation of the parsed AST).
 Compared: accept/reject, the error kind, and for accepted statements the compiled structure (target names,
-dtypes, aggregate flags, group_indexes, having_index, order_spec, pivots). Independent checks on the
-implementation alone: exception class, parseinfo span, render_exception, and 'ill-formed by construction'
-mutants must be rejected."""
+dtypes, aggregate flags, chosen overloads, group_indexes, having_index, order_spec, pivots). Independent checks on
+the implementation alone: exception class, parseinfo span, render_exception, and 'ill-formed by construction'
+mutants must be rejected.  Stream "end-to-end": statements over a table WITH DATA are compiled, lowered to the
+executor model (Model/Link.v) and executed inside Coq (`run_out`); the rows and description datatypes are compared
+with what the implementation fetches."""
 import datetime
 import decimal
 import io
@@ -34,6 +36,11 @@ ASSUMPTIONS = [
     'are equal in the model only if they are the same call on equal arguments',
     'parameter values are None/bool/int/Decimal/str/date',
     'the registries, type table and table schemas are those of Model/RegistrySnapshot.v (kernel-checked equal to the live ones on every run)',
+    'end-to-end stream: the executor model (Eval.v/Exec.v/Order.v/Pivot.v, validated by C01-C03/C15) is the meaning of a lowered '
+    'query; strings in data and patterns contain no regular-expression metacharacters (Eval.v models ~ as case-insensitive '
+    'substring search); a statement whose lowering is refused (IN over a subquery or a column, FROM expressions on the Beancount '
+    'tables, scalar functions beyond the ten of Eval.v, folded constants that evaluate to NULL, types outside '
+    'int/Decimal/str/date/bool) is counted as not lowerable, not compared',
 ]
 
 # The tables are EMPTY on purpose: an exception at execution over empty tables is independent of the data, i.e. a
@@ -931,6 +938,21 @@ def e2e_cases(tier, rng):
             st['limit'] = rng.choice([0, 1, 2, 3, 5])
         text, params = g.finish_params(c05gen.render(st))
         cases.append(dict(stream='e2e', rule='e2e:' + st['shape'].split(':')[0], text=text, params=params, rows=rows))
+    # the rejecting path of run_stmt (compile error = the implementation's) and fixed shapes worth pinning
+    rows = [[1, 'x', '2020-01-01', '1.5', True, 2, '0.25', 'y'], [2, 'x', '2020-01-02', '2.5', False, None, '1', None],
+            [None, 'z', None, None, None, 3, None, 'y'], [2, None, '2020-01-02', '0', True, 3, '1.0', 'x']]
+    for text in ['SELECT nosuch FROM #v', 'SELECT a FROM #v WHERE a + b > 1', 'SELECT a, b FROM #v GROUP BY a',
+                 'SELECT a FROM #v ORDER BY 2', 'SELECT b, count(*) FROM #v GROUP BY b PIVOT BY 1, 1',
+                 'SELECT sum(b) FROM #v', 'SELECT a FROM #v WHERE sum(a) > 1', 'SELECT coalesce(a, b) FROM #v',
+                 'SELECT b, a2, sum(a) AS s FROM #v GROUP BY b, a2 PIVOT BY b, a2',
+                 'SELECT b, a2, sum(a) AS s, count(*) AS n FROM #v GROUP BY 1, 2 ORDER BY 2 DESC PIVOT BY 2, 1',
+                 'SELECT DISTINCT b, f FROM #v ORDER BY f DESC, b LIMIT 3',
+                 'SELECT s, n FROM (SELECT b, sum(a) AS s, count(x) AS n FROM #v GROUP BY b HAVING count(*) > 0) WHERE s > 1 ORDER BY 1 DESC',
+                 'SELECT c FROM (SELECT a AS c, a2 AS c FROM #v) ORDER BY 1',
+                 'SELECT b, a, x / a2, a / a2, a % a2, d + a, d - d, -x FROM #v ORDER BY b, 2',
+                 'SELECT b, first(a), last(a), min(x), max(d), count(a2), sum(x2) FROM #v GROUP BY b ORDER BY sum(x2), b',
+                 'SELECT count(*), sum(a) FROM #v WHERE a > 100', 'SELECT a FROM #v WHERE b ~ "X" OR a2 IN (3, NULL) ORDER BY a DESC']:
+        cases.append(dict(stream='e2e', rule='e2e:fixed', text=text, params=None, rows=rows))
     return cases
 
 
